@@ -93,6 +93,22 @@ def handle_violations(work, drive, prop, out, invariants):
         return 0, known
     inv, file, line = out.violation
     seg = extract_segment(file, line)
+    if file in out.file_cmd:
+        # executions that depend on how the caller hands over its buffers: re-run the same harness command in a fresh process
+        import venv
+        c = out.file_cmd[file]
+        rep = {"property": prop, "variant": c["variant"], "args": c["args"], "env": {}, "pattern": None, "invariants": invariants,
+               "kind": "inv", "label": c["label"], "invariant": inv, "offending_line": describe_line(seg)}
+        j2 = venv.run_job(work, venv.Job(c["label"], c["variant"], c["args"]), "confirm")
+        again = [x for x in validate_many(work, j2.trace_files, invariants) if x.invariant]
+        if j2.rc != 0 or again:
+            os.makedirs(REPLAY_DIR, exist_ok=True)
+            path = os.path.join(REPLAY_DIR, "%s-%s.cmd.json" % (prop, hashlib.md5(json.dumps(rep, sort_keys=True).encode()).hexdigest()[:12]))
+            json.dump(rep, open(path, "w"), indent=1)
+            print("VIOLATION property=%s replay=%s" % (prop, path), flush=True)
+            print("  invariant %s fails at: %s" % (inv, describe_line(seg)), flush=True)
+            return 1, known
+        raise Infra("violation of %s in %s did not reproduce when the command was run again" % (inv, c["label"]))
     replay_path = save_replay(prop, seg)
     status, info = confirm(work, drive, replay_path, invariants)
     if status in ("confirmed", "crash"):
@@ -180,6 +196,9 @@ def tree_check(work, prop, tier, seed, t0, stages, invariants, model_invs, rule,
         # the model with default switches describes the repaired tree; if it breaks its own invariants while every
         # real execution satisfies the property, the model or its configuration is wrong: never a verdict about the code
         raise Infra("model %s violates %s with default switches although all traces validate:\n%s" % out.model_violation)
+    if extra_cov is not None and extra_cov.pop("want_model_coverage", False) and not violations:
+        # vacuity report: which code paths of the L1 model did TLC actually evaluate over the closed universes
+        extra_cov["model_code_path_coverage"] = model_coverage(work, drive, [("alpha/string", u, "q") for u in ("split", "long", "range", "prefix", "lfan")], seed)
     if drift and not violations:
         # conformance of the L1 model itself to the real structure (size classes, inline bytes): informative
         extra_cov = dict(extra_cov or {})
@@ -291,6 +310,8 @@ def comp_stages(tier, seed, battery, n=None, ln=None):
     st = []
     # tuples sharing a 16-byte encoded path, absent tuples differing only inside its non-inlined part
     st.append(Stage("model", "compound/u64+u64+u8", "tuplelong", "q", battery))
+    # bounds whose common prefix ends inside a compressed path, above / below everything stored
+    st.append(Stage("model", "compound/u32+u32", "tuplerange", "q", battery.replace("range=20", "range=-1").replace("range=60", "range=-1").replace("range=40", "range=-1").replace("range=100", "range=-1")))
     # a 256-way root in a compound tree (first field int8/uint8: 0xFF and 0x00 branches included)
     for s in (["compound/i8+u16"] if q else ["compound/i8+u16", "compound/u8+str", "compound/u8+f32"]):
         st.append(Stage("sim", s, "tuplefan", "q", battery, num=(1 if q else 4), depth=(480 if q else 1000), ramp=True,
@@ -390,7 +411,8 @@ def check_C11(work, prop, tier, seed, t0):
     extra = coll_stages(tier, bat) + comp_stages(tier, seed, bat)
     stages = std_stages(tier, seed, bat, extra=extra)
     return tree_check(work, prop, tier, seed, t0, stages, PROP_INVS[prop],
-                      ["WFOK", "ShapeOK", "LeavesOK", "NormalOK", "SizeOK"], RULE_TREE, model_props=[], drift=True)
+                      ["WFOK", "ShapeOK", "LeavesOK", "NormalOK", "SizeOK"], RULE_TREE, model_props=[], drift=True,
+                      extra_cov={"want_model_coverage": tier == "thorough"})
 
 
 def check_C14(work, prop, tier, seed, t0):
@@ -542,6 +564,25 @@ def check_C10(work, prop, tier, seed, t0):
                 break
             os.remove(path)
             raise Infra("node violation did not reproduce: %s" % info)
+    # the 4/16/48/256-slot probes are also INLINED in Search of the generated trees and of the hand-written collation
+    # tree: drive them through real trees whose nodes carry stale lanes (full node, largest / smallest child removed, ...)
+    tree_out = None
+    if not violations:
+        size = "q" if q else "t"
+        tstages = []
+        for kind, u, d in (("alpha/string", "fan18", 300), ("uint8", "fan18", 300), ("collation/string/und", "han", 260),
+                           ("alpha/bytes", "fanb", 200), ("compound/i8+u16", "tuplefan", 480)):
+            tstages.append(Stage("sim", kind, u, size, "search", num=(2 if q else 8), depth=(d if q else 2 * d), ramp=True,
+                                 invs=["SizeOK"], every=False, batevery=(1 if u == "fan18" else 4), start_full=(u == "tuplefan")))
+        tstages.append(Stage("model", "collation/string/und", "textq", "q", "search"))
+        tstages.append(Stage("model", "alpha/string", "split", "q", "search"))
+        tree_out = tree_pipeline(work, prop, tstages, ["Inv_C01"], seed, model_invs=["SearchOK"], model_props=[], drive=drive)
+        v2, _ = handle_violations(work, drive, prop, tree_out, ["Inv_C01"])
+        violations += v2
+        total_lines += tree_out.trace_lines
+        total_ops += tree_out.ops
+        segs += tree_out.segments
+        model_runs += tree_out.model_runs
     cov = {"states": r.states, "transitions": r.transitions, "traces_validated_against_impl": segs,
            "samples": samples or [{"note": "none"}], "evaluations": total_ops, "distinct_nontrivial": len(lines),
            "rule": "closure of all add/remove sequences of the ArtNode model over the boundary alphabet (one test per transition, replayed "
